@@ -10,6 +10,11 @@ out.append('Every report on the unchanged tree was triaged by a concrete replay 
            'sections). A defect with a small, safe repair was fixed by an unguarded `fix:` commit in /repo (the check passes on the repaired tree\n'
            'and reports the violation again if it returns — each fix has a self-test mutant that re-introduces it); the others are listed in\n'
            '`known_findings.json` under `known`, keyed by rule|function|construct, and printed as `KNOWN-FINDING` lines.\n')
+out.append('Observations outside the 50 properties, made while replaying and left alone: `MPI_Type_dup` of a vector multiplies the stride by the extent\n'
+           'twice and of an indexed type reinterprets byte displacements as `int` indices (`Type_Vector::clone`, `Type_Indexed::clone`;\n'
+           'tools/triage/c30_vector_count2_resized.c shows the first) - `MPI_Type_dup` is not among the constructors C30 quantifies over; the\n'
+           '`tracing/vm` option aborts at platform load (`on_vm_creation` runs for every host) - not among the options C47 quantifies over;\n'
+           '`Topo_Cart::shift` tests `ndims_ < direction` where `<=` is meant (C33 is not applicable).\n')
 out.append('### 7.1 Repaired (`fixed:` entries of known_findings.json)\n')
 out.append('| property | commit | what failed |')
 out.append('|---|---|---|')
